@@ -64,7 +64,9 @@ ARG_LIT = ["x", "foo", "a1", "hello", "7", "zz9"]
 # -a passes its argument verbatim, whatever is in it
 ARG_LIT_SPECIAL = ["100%%", "a%(1 2 add%)b", "%d items", "50%", "q\"uote", "back\\slash", "%s", "%", "a b", "%x%%",
                    "printf(\"%s\\n\")", "", "-x", "let"]
-ARG_EVAL = [("1", 1), ("\"s\"", 1), ("(1, 2)", 2), ("(\"a\", \"b\", \"c\")", 3), ("10 20", 1),
+ARG_EVAL_RUNTIME_FAIL = ["drop", "(1, 2) " + BOMB % 2, "(1, drop)", "(1, 2, drop)", "(1, 2, 3) " + BOMB % 3, "[drop]", "(1, 2) (|A| A " + BOMB % 2 + ")"]
+ARG_EVAL = [("(1, drop)", -2), ("(1, 2, drop)", -2), ("(1, 2, 3) " + BOMB % 3, -2), ("[drop]", -2),
+            ("1", 1), ("\"s\"", 1), ("(1, 2)", 2), ("(\"a\", \"b\", \"c\")", 3), ("10 20", 1),
             ("1 (== 2)", 0), ("0x1f", 1), ("(7, 8, 9) ?(8 ?ne)", 2), ("[1, 2]", 1),
             ("1 )", -1), ("nosuch", -1), ("drop", -2), ("(1, 2) " + BOMB % 2, -2)]
 
@@ -198,7 +200,8 @@ def make_failing_plan(rng, idx):
     """For C14: invocations whose query fails at run time in some combination."""
     for _ in range(20):
         plan, cfg = make_plan(rng, idx)
-        if plan["cli"].get("qclass") in ("fail", "fail-for-one-combination"):
+        if plan["cli"].get("qclass") in ("fail", "fail-for-one-combination") \
+                or any(a["kind"] == "eval" and a["text"] in ARG_EVAL_RUNTIME_FAIL for a in plan["cli"]["args"]):
             plan["profile"] = "C14"
             return plan, "cli-failure"
     plan["profile"] = "C14"
@@ -351,6 +354,7 @@ def lib_results(z, plan):
                 vals.append(("O:%d:0" % o, parse_stack(e.text("r"))[0]))
             elif e.outcome == "fail":
                 failed = True
+                res["arg_runtime_fail"] = e.text("msg") or "?"
                 break
             elif e.outcome in ("end", "skip"):
                 break
@@ -709,11 +713,23 @@ class CliStats(O.RunStats):
 def judge_failure_clause(plan, lib, resp):
     """C14's CLI clause only: a run-time failure of a well-formed query gives
     a message on stderr and exit status 2."""
-    if resp.cli is None or lib.get("arg_fail") or not lib.get("compile_ok") or plan["cli"].get("query") is None:
+    if resp.cli is None or plan["cli"].get("query") is None:
         return None
     opts = set(plan["cli"]["opts"])
     quiet = bool(opts & {"-q", "--quiet", "--silent"})
     nomsg = bool(opts & {"-s", "--no-messages"})
+    if lib.get("arg_runtime_fail") and lib.get("compile_ok"):
+        # an --a expression is a well-formed query too: its run-time failure, at
+        # whatever pull, is a failure of the invocation
+        argv = " ".join(repr(a) for a in plan.get("argv", []))
+        if resp.cli["status"] != 2:
+            return ("cli-runtime-failure:exit-status", "%s\nan --a expression fails at run time (%s) but the exit status is %d, not 2\nstdout=%r\nstderr=%r"
+                    % (argv, lib["arg_runtime_fail"], resp.cli["status"], resp.cli["out"][:200], resp.cli["err"][:300]))
+        if not resp.cli["err"]:
+            return ("cli-runtime-failure:stderr", "%s\nan --a expression fails at run time but nothing is written to stderr" % argv)
+        return None
+    if lib.get("arg_fail") or not lib.get("compile_ok"):
+        return None
     combos = [] if lib.get("no_file_opened") else lib["combos"]
     if quiet or not any(c["error"] is not None for c in combos):
         return None
